@@ -24,3 +24,44 @@ package tokenizer
 //@   loop 1 invariant forall j int :: 0 <= j && j < len(toks) ==> okTok(toks[j], s) && toks[j] != tok && tokEnd(toks[j]) <= i && (tok.Offset >= 0 ==> tokEnd(toks[j]) <= tok.Offset)
 //@   loop 1 invariant forall j int, k int :: 0 <= j && j < k && k < len(toks) ==> tokEnd(toks[j]) <= toks[k].Offset
 //@   props C17
+//
+// okRange(r, n, size): a token range of the given size inside n tokens.
+//@ spec okRange(r *TokenRange, n int) bool = r != nil && 0 <= r.Start && r.Start < r.End && r.End <= n
+//@ spec okRanges(rs TokenRanges, n int) bool = forall i int :: 0 <= i && i < len(rs) ==> okRange(rs[i], n)
+//@ spec okHash(h Hash, n int) bool = forall c uint32, j int :: (c in h) && 0 <= j && j < len(h[c]) ==> okRange(h[c][j], n)
+//@ spec nonNilToks(t Tokens) bool = forall j int :: 0 <= j && j < len(t) ==> t[j] != nil
+//@
+//@ func (Tokens).stringifyTokens
+//@   requires b != nil && 0 <= offset && 0 <= size && offset + size <= len(t) && nonNilToks(t)
+//@   modifies fields(b)
+//@   loop 1 invariant offset <= j
+//@   props C17
+//@
+//@ func (Hash).add
+//@   inline
+//@
+//@ func (Tokens).GenerateHashes
+//@   requires h != nil && size >= 0 && nonNilToks(t) && len(h) == 0
+//@   ensures len(result0) == len(result1)
+//@   ensures okRanges(result1, len(t)) && okHash(h, len(t))
+//@   ensures forall i int :: 0 <= i && i < len(result1) ==> result1[i].End - result1[i].Start == size
+//@   modifies entries(h)
+//@   loop 1 invariant 0 <= offset && size >= 1 && len(css) == len(tr) && okRanges(tr, len(t)) && okHash(h, len(t))
+//@   loop 1 invariant forall i int :: 0 <= i && i < len(tr) ==> tr[i].End - tr[i].Start == size
+//@   loop 1 invariant (css == nil || fresh(css)) && (tr == nil || fresh(tr))
+//@   loop 1 invariant forall c uint32 :: (c in h) ==> fresh(h[c]) && ref(h[c]) != ref(tr)
+//@   loop 1 invariant forall c1 uint32, c2 uint32 :: (c1 in h) && (c2 in h) && c1 != c2 ==> ref(h[c1]) != ref(h[c2])
+//@   props C17
+//@
+//@ func (TokenRanges).Len
+//@   ensures result == len(t)
+//@   modifies nothing
+//@   props C17
+//@ func (TokenRanges).Swap
+//@   requires 0 <= i && i < len(t) && 0 <= j && j < len(t)
+//@   modifies elems(t)
+//@   props C17
+//@ func (TokenRanges).Less
+//@   requires 0 <= i && i < len(t) && 0 <= j && j < len(t) && t[i] != nil && t[j] != nil
+//@   modifies nothing
+//@   props C17
